@@ -44,6 +44,10 @@ var verifSamples = []verifKindSample{
 	{"Discriminator", func() any { return &Discriminator{} }, `{"propertyName":"p","mapping":{"a":"#/components/schemas/A"},"x-ext":1}`, []string{"propertyName"}},
 	{"XML", func() any { return &XML{} }, `{"name":"n","namespace":"ns","prefix":"p","attribute":true,"wrapped":true,"x-ext":1}`, nil},
 	{"T", func() any { return &T{} }, verifBaseDoc, []string{"openapi", "info", "paths"}},
+	// member names that look like extensions: in a name -> object map "x-..." is an ordinary name
+	{"SchemaXNames", func() any { return &Schema{} }, `{"type":"object","properties":{"x-trace-id":{"type":"string"},"a":{"type":"integer"}},"required":["x-trace-id"]}`, nil},
+	{"ResponseXNames", func() any { return &Response{} }, `{"description":"d","headers":{"x-rate-limit":{"schema":{"type":"integer"}}},"content":{"application/json":{"schema":{"type":"string"},"examples":{"x-small":{"value":"s"}}}},"links":{"x-next":{"operationId":"op"}}}`, []string{"description"}},
+	{"ComponentsXNames", func() any { return &Components{} }, `{"schemas":{"x-foo":{"type":"string"}},"parameters":{"x-p":{"name":"p","in":"query","schema":{"type":"string"}}},"headers":{"x-h":{"schema":{"type":"string"}}},"requestBodies":{"x-b":{"content":{"text/plain":{"schema":{"type":"string"}}}}},"responses":{"x-r":{"description":"d"}},"securitySchemes":{"x-s":{"type":"http","scheme":"basic"}},"examples":{"x-e":{"value":1}},"links":{"x-l":{"operationId":"op"}},"callbacks":{"x-c":{"{$request.body#/u}":{"post":{"responses":{"200":{"description":"d"}}}}}}}`, nil},
 }
 
 func verifJSONTree(text []byte) (any, bool) {
